@@ -65,3 +65,6 @@ Section Spec.
   Definition perm_guard (bs : list (bound V)) : bool :=
     uppers_ok (uppers bs) && (length (oneofs bs) <=? 1).
 End Spec.
+
+Definition is_orbound {V : Type} (b : bound V) : bool :=
+  match b with OrBound => true | _ => false end.
